@@ -64,6 +64,17 @@ WSumOK(cfg, e) ==
         e.got[1] = lg[1].tok * UFactor(cfg.comps[Src(cfg, lg[1].l)].u) * lg[2].tok
                    + lg[3].tok * UFactor(cfg.comps[Src(cfg, lg[3].l)].u) * lg[4].tok
 
+(* ... with weights read from static outputs (no requests logged for them): weight = the static source's only *)
+(* publication                                                                                                 *)
+WSumStaticOK(cfg, e) ==
+  LET c == e.c IN
+  (Len(cfg.comps[c].ins) = 1 /\ cfg.comps[Src(cfg, <<c, 1>>)].ws /\ Chain(cfg, <<c, 1>>) = <<>>) =>
+     LET w == Src(cfg, <<c, 1>>)  lg == e.log IN
+     (Len(cfg.comps[w].ins) = 4 /\ cfg.comps[Src(cfg, <<w, 2>>)].kind = "static" /\ cfg.comps[Src(cfg, <<w, 4>>)].kind = "static"
+      /\ Len(lg) = 2 /\ lg[1].ok /\ lg[2].ok /\ Len(e.got) = 1) =>
+        e.got[1] = lg[1].tok * UFactor(cfg.comps[Src(cfg, lg[1].l)].u) * (cfg.tb * Src(cfg, <<w, 2>>))
+                   + lg[2].tok * UFactor(cfg.comps[Src(cfg, lg[2].l)].u) * (cfg.tb * Src(cfg, <<w, 4>>))
+
 (* ... and that sum is the one for the requested time, whether or not the merger pulled for   *)
 (* this request: value and weight of every pair are the publications nearest to the time the  *)
 (* specification requests on that link (u.log), taken from the producers' full histories      *)
@@ -112,7 +123,7 @@ UpdVerdict(cfg, st, e, u, k) ==
   ELSE IF ProjSet(e.nlog) # ProjSet(u.nlog) THEN Fail("delay-shift-notify", k)
   ELSE IF ~CanonOK(cfg, st, e) THEN Fail("canon", k)
   ELSE IF ~BufCanonOK(cfg, st, e) THEN Fail("canon-buffered", k)
-  ELSE IF ~WSumOK(cfg, e) \/ ~WSumCanonOK(cfg, st, e, u) THEN Fail("weighted-sum", k)
+  ELSE IF ~WSumOK(cfg, e) \/ ~WSumCanonOK(cfg, st, e, u) \/ ~WSumStaticOK(cfg, e) THEN Fail("weighted-sum", k)
   \* every read of a static input delivers the static source's only publication
   ELSE IF "sins" \in DOMAIN cfg.comps[c] /\ e.sgot # [j \in 1..Len(cfg.comps[c].sins) |-> cfg.tb * cfg.comps[c].sins[j]]
        THEN Fail("static-input", k)
